@@ -351,3 +351,227 @@ Section LoopSpec.
         * intros H. apply HG, NoDup_keys_upd, H.
   Qed.
 End LoopSpec.
+
+(* ---- cloning the roots is the beginning of the same loop ---- *)
+
+Lemma dom_insert_root D nu p b d1 nu1 root : dom_insert D nu p b = Ok (d1, nu1, root) -> root = broot b.
+Proof.
+  unfold dom_insert. destruct (bkids b).
+  - destruct (insert_one D nu p b) as [[d n]| | |]; cbn [rbind]; intros H; inversion H; reflexivity.
+  - destruct (insert_loop (bsize b) D nu [(p, b)]) as [[d n]| | |]; cbn [rbind]; intros H; inversion H; reflexivity.
+Qed.
+
+Lemma roots_then_loop : forall rs src D q0 rw nu nr fuel D2 c2 nu2 nr2,
+  clone_loop (length rs + fuel) src D (mkCtx (List.map (pair rnone) rs ++ q0) rw) nu nr = Ok (D2, c2, nu2, nr2) ->
+  exists D1 c1 nu1 nr1,
+    clone_roots src D (mkCtx q0 rw) nu nr rs = Ok (D1, c1, nu1, nr1, nseq nr (length rs)) /\
+    clone_loop fuel src D1 c1 nu1 nr1 = Ok (D2, c2, nu2, nr2).
+Proof.
+  induction rs as [|r rs IH]; intros src D q0 rw nu nr fuel D2 c2 nu2 nr2 H.
+  - cbn [length plus List.map app] in H. exists D, (mkCtx q0 rw), nu, nr. split; [reflexivity|exact H].
+  - cbn [length plus List.map app] in H. rewrite clone_loop_cons in H. cbn [clone_roots nseq length].
+    change (match src with Some s => s | None => D end) with (srcof src D).
+    unfold clone_ref_as_builder in *. cbn [c_queue c_rewrites] in *.
+    destruct (lookup r (d_insts (srcof src D))) as [i|]; [|discriminate].
+    destruct (dom_insert D nu rnone (BNode nr (i_name i) (i_class i) (i_props i) []))
+      as [[[d1 nu1] root]| | |] eqn:Ei; cbn [rbind] in H; try discriminate.
+    pose proof (dom_insert_root _ _ _ _ _ _ _ Ei) as Hroot. cbn [broot] in Hroot. subst root.
+    rewrite <- app_assoc in H. apply IH in H. destruct H as [D1 [c1 [nu1' [nr1 [H1 H2]]]]].
+    cbn [rbind]. rewrite H1. cbn [rbind]. exists D1, c1, nu1', nr1. split; [reflexivity|exact H2].
+Qed.
+
+(* ---- rewrite_refs ---- *)
+
+Lemma prop_refs_in_spec D ps o :
+  In o (prop_refs_in D ps) <-> In (PRef o) (List.map snd ps) /\ has o (d_insts D) = true.
+Proof.
+  induction ps as [|[k v] ps IH]; [cbn; tauto|].
+  change (prop_refs_in D ((k, v) :: ps)) with
+    (match v with PRef v0 => if has v0 (d_insts D) then v0 :: prop_refs_in D ps else prop_refs_in D ps
+                | _ => prop_refs_in D ps end).
+  cbn [List.map snd In]. destruct v as [v0|u|w].
+  - destruct (has v0 (d_insts D)) eqn:E.
+    + cbn [In]. rewrite IH. split.
+      * intros [->|[H1 H2]]; [split; [left; reflexivity|exact E]|split; [right; exact H1|exact H2]].
+      * intros [[H|H] H2]; [left; congruence|right; split; assumption].
+    + rewrite IH. split.
+      * intros [H1 H2]. split; [right; exact H1|exact H2].
+      * intros [[H|H] H2]; [inversion H; subst; congruence|split; assumption].
+  - rewrite IH. split; [intros [H1 H2]; split; [right; exact H1|exact H2]|].
+    intros [[H|H] H2]; [discriminate|split; assumption].
+  - rewrite IH. split; [intros [H1 H2]; split; [right; exact H1|exact H2]|].
+    intros [[H|H] H2]; [discriminate|split; assumption].
+Qed.
+
+Lemma rr_collect_spec D news :
+  (forall n, In n news -> exists i, lookup n (d_insts D) = Some i) ->
+  exists ex, rr_collect D news = Some ex /\
+    forall o, In o ex <-> exists n i, In n news /\ lookup n (d_insts D) = Some i /\
+                                    In (PRef o) (List.map snd (i_props i)) /\ has o (d_insts D) = true.
+Proof.
+  induction news as [|n news IH]; intros H.
+  - exists []. split; [reflexivity|]. intros o. split; [intros []|intros [n [i [[] _]]]].
+  - destruct (H n (or_introl eq_refl)) as [i Hi].
+    destruct IH as [ex [Hex Hspec]]; [intros m Hm; apply H; right; exact Hm|].
+    exists (prop_refs_in D (i_props i) ++ ex). cbn [rr_collect]. rewrite Hi, Hex. split; [reflexivity|].
+    intros o. rewrite in_app_iff, prop_refs_in_spec, Hspec. split.
+    + intros [[H1 H2]|[m [j [Hm [Hj [H1 H2]]]]]].
+      * exists n, i. repeat split; try assumption. left. reflexivity.
+      * exists m, j. repeat split; try assumption. right. exact Hm.
+    + intros [m [j [[Hm|Hm] [Hj [H1 H2]]]]].
+      * subst m. rewrite Hi in Hj. inversion Hj; subst j. left. split; assumption.
+      * right. exists m, j. repeat split; assumption.
+Qed.
+
+Lemma rr_apply_spec rw ex news : forall D,
+  NoDup news -> (forall n, In n news -> exists i, lookup n (d_insts D) = Some i) ->
+  exists D', rr_apply D rw ex news = Some D' /\ d_root D' = d_root D /\ d_uids D' = d_uids D /\
+    (forall y i, In y news -> lookup y (d_insts D) = Some i ->
+                 lookup y (d_insts D') = Some (set_props i (vmap (rewrite_val rw ex) (i_props i)))) /\
+    (forall y, ~ In y news -> lookup y (d_insts D') = lookup y (d_insts D)) /\
+    (NoDup (keys (d_insts D)) -> NoDup (keys (d_insts D'))).
+Proof.
+  induction news as [|n news IH]; intros D Hnd H.
+  - exists D. cbn [rr_apply]. repeat split; try tauto. intros y i [].
+  - inversion Hnd as [|a l Hn Hnd']; subst a l.
+    destruct (H n (or_introl eq_refl)) as [i Hi]. cbn [rr_apply]. rewrite Hi.
+    set (D1 := mkDom (upd n (set_props i (List.map (fun kv => (fst kv, rewrite_val rw ex (snd kv))) (i_props i)))
+                          (d_insts D)) (d_root D) (d_uids D)).
+    destruct (IH D1 Hnd') as [D' [Happ [Hr [Hu [Hin [Hout Hk]]]]]].
+    { intros m Hm. cbn [D1 d_insts]. rewrite lookup_upd_neq by (intros ->; contradiction).
+      apply H. right. exact Hm. }
+    exists D'. split; [exact Happ|]. split; [exact Hr|]. split; [exact Hu|]. split; [|split].
+    + intros y j [Hy|Hy] Hj.
+      * subst y. rewrite Hi in Hj. inversion Hj; subst j. rewrite (Hout n Hn). cbn [D1 d_insts].
+        apply lookup_upd_eq.
+      * apply Hin; [exact Hy|]. cbn [D1 d_insts]. rewrite lookup_upd_neq by (intros ->; contradiction). exact Hj.
+    + intros y Hy. cbn [In] in Hy. rewrite Hout by tauto. cbn [D1 d_insts].
+      apply lookup_upd_neq. intros ->. apply Hy. left. reflexivity.
+    + intros Hkd. apply Hk. cbn [D1 d_insts]. apply NoDup_keys_upd. exact Hkd.
+Qed.
+
+(* ---- the top level ---- *)
+
+Definition props_nodup (a : adom) : Prop := forall x i, In (x, i) (aflat a) -> NoDup (keys (i_props i)).
+
+Lemma Rep_lookup_In d a x i : Rep d a -> (lookup x (d_insts d) = Some i <-> In (x, i) (aflat a)).
+Proof.
+  intros [Hext [Hnd _]]. rewrite Hext. apply lookup_iff_In. unfold aflat. apply NoDup_keys_fflat. exact Hnd.
+Qed.
+
+Section Top.
+  Variables (src : option dom) (s t : dom) (sa ta : adom) (nu nr : N) (rs : list ref).
+  Hypotheses (Hs : s = srcof src t) (HRs : Rep s sa) (HRt : Rep t ta)
+             (Hus : uids_below nu sa) (Hut : uids_below nu ta)
+             (Hrs : refs_below nr sa) (Hrt : refs_below nr ta)
+             (Hps : prefs_below nr sa) (Hpt : prefs_below nr ta)
+             (Hns : props_nodup sa) (Hnt : props_nodup ta).
+  Variables (subs : list tree) (rw : map ref) (asg : map N) (nu' nr' : N).
+  Let phi := phi_of rw.
+  Let psi := fun n => lookup n asg.
+  Let cv := clone_val rw (frefs (a_trees ta)).
+  Let L := bfs_all subs.
+  Let Fpre := cpf phi (cprops psi phi).
+  Let Fpost := cpf phi (fun x ps => vmap cv (cprops psi phi x ps)).
+  Let E := flat_map (tflat rnone) (List.map (tmap Fpre) subs).
+  Let copies := List.map (tmap Fpost) subs.
+  Hypotheses (Hfind : find_all rs (a_trees sa) = Some subs) (Hnd : NoDup (frefs subs))
+             (Halloc : alloc_refs nr (bfs_all subs) = (rw, nr'))
+             (Hsettle : settle (fuids (a_trees ta)) nu
+                (bfs_all (List.map (tmap (cpf phi (fun x ps => vmap cv (props_of_list ps)))) subs)) = (asg, nu')).
+
+  Lemma top_sub_entry : forall sub, In sub subs -> forall q x i, In (x, i) (tflat q sub) ->
+    exists i', In (x, i') (aflat sa) /\ sbp i i'.
+  Proof.
+    intros sub Hsub q x i Hin. destruct (find_all_spec rs (a_trees sa) subs Hfind) as [_ [_ H]].
+    exact (H sub Hsub rnone q x i Hin).
+  Qed.
+
+  Lemma top_roots : List.map troot subs = rs /\ length subs = length rs.
+  Proof. destruct (find_all_spec rs (a_trees sa) subs Hfind) as [H1 [H2 _]]. split; assumption. Qed.
+
+  Lemma top_fentry : forall x i, In (x, i) (flat_map (tflat rnone) subs) ->
+    exists i', In (x, i') (aflat sa) /\ sbp i i'.
+  Proof.
+    intros x i Hin. apply In_fflat in Hin. destruct Hin as [sub [Hsub Hin]]. eapply top_sub_entry; eassumption.
+  Qed.
+
+  Lemma top_sub_refs : forall x, In x (frefs subs) -> In x (frefs (a_trees sa)) /\ x < nr.
+  Proof.
+    intros x Hx. rewrite <- (keys_fflat rnone) in Hx. unfold keys in Hx. apply in_map_iff in Hx.
+    destruct Hx as [[x' i] [Hx' Hin]]. cbn in Hx'. subst x'.
+    destruct (top_fentry x i Hin) as [i' [Hin' _]].
+    assert (In x (frefs (a_trees sa))) by (eapply In_fflat_frefs; exact Hin').
+    split; [assumption|apply Hrs; assumption].
+  Qed.
+
+  Lemma top_L_nodup : NoDup (List.map troot L).
+  Proof. eapply Permutation_NoDup; [apply bfs_roots_perm|exact Hnd]. Qed.
+
+  Lemma top_alloc : numbered phi nr L /\ nr' = nr + N.of_nat (fsize subs) /\
+    (forall o, ~ In o (List.map troot L) -> lookup o rw = None) /\
+    (forall t', In t' L -> lookup (troot t') rw = Some (phi (troot t'))).
+  Proof.
+    destruct (alloc_refs_spec L nr rw nr' top_L_nodup Halloc) as [H1 [H2 [H3 H4]]].
+    unfold L in H2. rewrite length_bfs_all in H2. repeat split; assumption.
+  Qed.
+
+  Lemma top_L_range : forall t', In t' L -> nr <= phi (troot t') < nr'.
+  Proof.
+    intros t' Ht'. destruct top_alloc as [H1 [H2 _]]. pose proof (numbered_range _ _ _ _ H1 Ht') as H.
+    unfold L in H. rewrite length_bfs_all in H. lia.
+  Qed.
+
+  Lemma top_phi_range : forall x, In x (frefs subs) -> nr <= phi x < nr'.
+  Proof.
+    intros x Hx. apply In_frefs_bfs in Hx. destruct Hx as [t' [Ht' <-]]. apply top_L_range. exact Ht'.
+  Qed.
+
+  Lemma top_plan : Plan psi (fuids (a_trees ta)) nu nr L nu'.
+  Proof.
+    destruct top_alloc as [H1 _]. rewrite bfs_all_tmap in Hsettle.
+    eapply settle_Plan; [|exact H1|exact Hsettle].
+    intros x ps. apply get_uid_vmap. intros v. apply clone_val_uidsafe.
+  Qed.
+
+  Lemma top_keys_E : keys E = List.map phi (frefs subs).
+  Proof. unfold E. rewrite keys_fflat. unfold Fpre. apply frefs_tmap. Qed.
+
+  Lemma top_keys_copies : frefs copies = List.map phi (frefs subs).
+  Proof. unfold copies, Fpost. apply frefs_tmap. Qed.
+
+  Lemma top_newrefs_nodup : NoDup (List.map phi (frefs subs)).
+  Proof.
+    destruct top_alloc as [H1 _].
+    eapply Permutation_NoDup; [apply Permutation_sym, Permutation_map, bfs_roots_perm|].
+    fold L. rewrite (numbered_map phi L nr H1). apply NoDup_nseq.
+  Qed.
+
+  Lemma top_E_range : forall y, In y (keys E) -> nr <= y < nr'.
+  Proof.
+    intros y Hy. rewrite top_keys_E in Hy. apply in_map_iff in Hy. destruct Hy as [x [<- Hx]].
+    apply top_phi_range. exact Hx.
+  Qed.
+
+  (* every enumerated original node is an entry of the source forest *)
+  Lemma top_L_entry : forall t', In t' L -> exists i', In (troot t', i') (aflat sa) /\ i_props i' = tprops t'.
+  Proof.
+    intros t' Ht'. destruct (In_bfs_entry rnone subs t' Ht') as [i [Hin Hsb]].
+    destruct (top_fentry _ _ Hin) as [i' [Hin' Hsb']]. exists i'. split; [exact Hin'|].
+    destruct Hsb as [_ [_ [_ E1]]]. destruct Hsb' as [_ [_ [_ E2]]]. rewrite <- E2, <- E1. apply tinst_props.
+  Qed.
+
+  Lemma top_L_uid : forall t' u, In t' L -> get_uid (props_of_list (tprops t')) = Some u -> u < nu.
+  Proof.
+    intros t' u Ht' Hu. destruct (top_L_entry t' Ht') as [i' [Hin Hp]].
+    assert (Hn : NoDup (keys (tprops t'))) by (rewrite <- Hp; eapply Hns; exact Hin).
+    unfold get_uid in Hu. rewrite (lookup_pol _ _ Hn) in Hu.
+    apply Hus. apply (In_fuids u rnone). exists (troot t'), i'. split; [exact Hin|].
+    unfold get_uid. rewrite Hp. exact Hu.
+  Qed.
+
+  Lemma top_nr_pos : 0 < nr.
+  Proof.
+    destruct HRt as [_ [_ [_ [_ [Hin _]]]]]. apply roots_in_frefs in Hin. apply Hrt in Hin. lia.
+  Qed.
+End Top.
